@@ -1,4 +1,6 @@
 # Gen module name -> translator module
 MODULES = {
     'Costs': 'costs',
+    'Calendar': 'calendar',
+    'ApiPhases': 'api_phases',
 }
